@@ -141,3 +141,28 @@ def build(u):
          ensures=[C('C01.abuild.annotations.finish_annotation.stores-the-annotation-with-exactly-its-collected-pairs',
                     'res matches Ok(r) && annots_of(r@, r@.len() as int) == annots_of(this_@, this_@.len() as int).push((named_element_values_visitor.annotation_type, alog(named_element_values_visitor)))')])
     u.close_block()
+
+    # ---- Vec<TypeAnnotation<T>>
+    u.raw('''
+#[verifier::external_body] pub struct TypePath { _p: () }
+pub trait TAnnotsBuilder<T>: Sized {
+    fn visit_type_annotation(self, type_reference: T, type_path: TypePath, annotation_descriptor: FieldDescriptor) -> Result<((Self, T, TypePath), Annotation), VErr>;
+    fn finish_type_annotation(this_: (Self, T, TypePath), named_element_values_visitor: Annotation) -> Result<Self, VErr>;
+}
+''')
+    TA = 'duke/src/tree/type_annotation.rs'
+    u.item(TA, 'struct', 'TypeAnnotation', derives=[])
+    u.fn(TA, 'TypeAnnotation::new', impl=r'TypeAnnotation<T>', impl_header='impl<T> TypeAnnotation<T>', ret='r', props=[],
+         ensures=[C('ctx.type_annotation.new', 'r.type_reference == type_reference && r.type_path == type_path && r.annotation == annotation')])
+    TI = r'TypeAnnotationsVisitor<T>\s+for\s+Vec<TypeAnnotation<T>>'
+    u.open_block('impl<T> TAnnotsBuilder<T> for Vec<TypeAnnotation<T>> {')
+    tfix = [(r'Self::NamedElementValuesResidual', '(Self, T, TypePath)'), (r'Self::NamedElementValuesVisitor', 'Annotation')]
+    u.fn(TB, 'VecTypeAnnotation::visit_type_annotation', impl=TI, bare=True, trait_impl=True, ret='res', sig_rewrites=tfix,
+         ensures=[C('C01.abuild.type-annotations.visit.hands-out-an-empty-builder-and-remembers-target-and-path',
+                    'res matches Ok(p) && p.0.0 == self && p.0.1 == type_reference && p.0.2 == type_path && p.1.annotation_type == annotation_descriptor && alog(p.1) == Seq::<(JavaString, EvV)>::empty()')])
+    u.fn(TB, 'VecTypeAnnotation::finish_type_annotation', impl=TI, bare=True, trait_impl=True, ret='res',
+         sig_rewrites=[(r'\(mut this, type_reference, type_path\): Self::NamedElementValuesResidual', 'this_: (Self, T, TypePath)'), tfix[1]],
+         rewrites=[(r'^\{', '{ let (mut this, type_reference, type_path) = this_;')],
+         ensures=[C('C01.abuild.type-annotations.finish.stores-target-path-and-the-collected-annotation-at-the-end',
+                    'res matches Ok(r) && r@ == this_.0@.push(TypeAnnotation { type_reference: this_.1, type_path: this_.2, annotation: named_element_values_visitor })')])
+    u.close_block()
